@@ -28,6 +28,16 @@ Op(e) ==
          \* a write that is not carried out is answered with an error status, not with a success
          /\ Report("ShapeRule", ~W => (e.http # 204 /\ e.hasstatus /\ e.status # 0))
          /\ cur' = (IF W THEN e.tok ELSE cur) /\ UNCHANGED subscribed
+    [] e.a = "RemoteWriteSub" ->      \* one entry with a value and ev = true: each half is decided by its own permission
+         /\ Report("WriteReachesApp", (W /\ R) => e.tok \in SetOf(e.apptoks))
+         /\ Report("NoWriteWithoutPw", ~W => (e.cbn = 0 /\ (R => cur \in SetOf(e.apptoks))))
+         /\ Report("ShapeRule", (~W \/ ~E) => (e.http # 204 /\ e.hasstatus /\ e.status # 0))
+         /\ Report("ShapeRule", (W /\ E) => (e.http \in {200, 204, 207} /\ NoErr(e)))
+         /\ cur' = (IF W THEN e.tok ELSE cur) /\ subscribed' = E
+    [] e.a = "PanickyWrite" ->      \* the application's callback panicked (when it was called): the value is stored, the connection new
+         /\ Report("WriteReachesApp", (W /\ R) => e.tok \in SetOf(e.apptoks))
+         /\ Report("NoWriteWithoutPw", ~W => (~e.dropped /\ (R => cur \in SetOf(e.apptoks))))
+         /\ cur' = (IF W THEN e.tok ELSE cur) /\ subscribed' = (IF e.dropped THEN FALSE ELSE subscribed)
     [] e.a = "RemoteRead" ->
          /\ Report("ReadsSeeLastWrite", R => (e.http = 200 /\ e.n = 1 /\ e.hasvalue /\ cur \in SetOf(e.rtoks)))
          /\ Report("NoValueWithoutPr", ~R => ~e.hasvalue)
